@@ -58,7 +58,6 @@ theorem marker_interact (env : Env W HS) (Good : Val → Prop) (WInv : W → Pro
 theorem markerKitS (env : Env W HS) (Good : Val → Prop) (WInv : W → Prop) (hg : HostGood env.host Good WInv)
     (hh : HndGood env.host Good) : InvKitS env (MarkerFree Good WInv) Good (fun x => bodyName x = true) where
   nUser := fun x hx => by simp [bodyName, hx]
-  nValue := by decide
   nYield := by decide
   nReceive := by decide
   int := hg.int
@@ -196,23 +195,20 @@ theorem marker_hookMetas (env : Env W HS) (Good : Val → Prop) (WInv : W → Pr
 
 /-- the activation without its `#error` / `#exit` wrapper -/
 def runCore (env : Env W HS) (fuel : Nat) (f : FunDef) : Exec W HS :=
-  seqX (stepM (do hookMetas env (some enterAnn) ["#enter"]
-                  fetchRefs env (sortNames (collect f).external)
-                  paramHooks env f.params) fun _ => done .normal)
+  seqX (stepM (do hookMetas env (some enterAnn) ["#enter"]; prologue env f) fun _ => done .normal)
     (execB env fuel (bodyWithReturn f))
 
 theorem marker_core (env : Env W HS) (Good : Val → Prop) (WInv : W → Prop) (hg : HostGood env.host Good WInv)
     (hh : HndGood env.host Good) (fuel : Nat) (f : FunDef) (hf : coreF f = true) :
     InvX (MarkerFree Good WInv) Good (runCore env fuel f) := by
   have kit := markerKit env Good WInv hg hh
-  simp only [coreF, Bool.and_eq_true, List.all_eq_true] at hf
-  obtain ⟨⟨⟨⟨⟨hbody, hau⟩, heu⟩, _⟩, _⟩, hparam⟩ := hf
+  have hbody : coreB (bodyWithReturn f) = true := by
+    simp only [coreF, Bool.and_eq_true] at hf
+    exact hf.1.1.1.1.1
   unfold runCore
   refine invX_seqX (invX_stepM (QA := fun _ => True) ?_ fun _ _ => invX_done _ trivial) (invB kit bodyName_marks fuel _ hbody)
   exact invM_bind (marker_hookMetas env Good WInv hh (hg.bool true) _ _) fun _ _ =>
-    invM_bind (invM_fetchRefs kit _ fun x hx =>
-      ⟨heu x ((mem_sortNames x _).1 hx), fun v hv => hg.glob x v (heu x ((mem_sortNames x _).1 hx)) hv⟩) fun _ _ =>
-    invM_paramHooks kit f.params fun p hp => hau p.name (List.contains_iff_mem.1 (hparam p hp))
+    invM_prologue kit f hf fun x v hx hv => hg.glob x v hx hv
 
 theorem runRef_eq (env : Env W HS) (fuel : Nat) (f : FunDef) :
     runRef env fuel f =
@@ -222,7 +218,7 @@ theorem runRef_eq (env : Env W HS) (fuel : Nat) (f : FunDef) :
         if !shouldInstr cfg "#error" [] && !shouldInstr cfg "#exit" ["exit"] then runCore env fuel f
         else tryFinally (tryExcept (runCore env fuel f) (errorHook env) (done .normal))
           (stepM (hookMetas env (some exitAnn) ["#exit"]) fun _ => done .normal) := by
-  unfold runRef runCore
+  unfold runRef runCore prologue
   rfl
 
 /-- **The marker is nowhere.**  For every function of the core fragment (declarations included), every capture
